@@ -542,8 +542,10 @@ class Flow:
                 return True
             if self_attr(x):
                 # self.A.add(V): own attribute, allowed sink
+                v = frozenset()
                 for a in n.args:
-                    self.ev(a, env, summ, depth)
+                    v |= self.ev(a, env, summ, depth)
+                summ.keyed.append(KeyedEvent(x.attr, frozenset(), v, n))
                 return True
         if f.attr == "setdefault" and self_attr(f.value) and n.args:
             k = self.ev(n.args[0], env, summ, depth)
@@ -723,6 +725,10 @@ class Flow:
             if self._is_self_attr(t):
                 if isinstance(t.value, ast.Attribute) and k:
                     summ.keyed.append(KeyedEvent(t.value.attr, k, v, st))
+            elif isinstance(t.value, ast.Name) \
+                    and t.value.id in env.get("__fresh__", ()):
+                # store into a locally created container
+                env[t.value.id] = env.get(t.value.id, frozenset()) | k | v
             elif tv:
                 summ.muts.append(MutEvent("store-subscript", tv, st,
                                           env.get("__owner__")))
